@@ -179,4 +179,98 @@ def Sys.measure (s : Sys) : Nat :=
   2 * s.toSend.length + s.inQ.length + 2 * s.toOut.length + s.outQ.length + 2 * s.toErr.length + s.errQ.length +
     pRank s.pPhase + cRank s.cPhase + b2n s.outEof + b2n s.errEof
 
+
+/-! ### Part 3: `join()` while the child is still going to write ("join first")
+
+  The parent calls `join()` (or the destructor does) without having read the redirected streams.
+  `join()` is the sequence of actions of Process.cpp:421-447 AS CODED: `waitpid` first, then the three
+  "close the pipe end if open" blocks.  The child writes its stdout data, then its stderr data
+  (partial writes, blocking on a full pipe), then exits with its code.  A write to a pipe whose read
+  end nobody holds any more terminates the child by SIGPIPE (`signalled`); `WEXITSTATUS` of a
+  signalled child is 0.  Nobody reads: the data has to fit into the pipes. -/
+
+inductive JAct where
+  | wait | closeOut | closeErr | closeIn
+  deriving Repr, DecidableEq
+
+/-- `Process::join(uint32&)` after the pid check -/
+def joinProgram : List JAct := [.wait, .closeOut, .closeErr, .closeIn]
+
+inductive JPhase where
+  | writingOut | writingErr | exited | signalled
+  deriving Repr, DecidableEq
+
+structure SysJ where
+  cap : Nat
+  outQ : List Nat
+  errQ : List Nat
+  outRd : Bool              -- the parent holds the read end of the stdout pipe
+  errRd : Bool
+  prog : List JAct          -- what is left of join()
+  reaped : Option Nat       -- the exit code join() stored (WEXITSTATUS)
+  cPhase : JPhase
+  toOut : List Nat
+  toErr : List Nat
+  exitCode : Nat
+
+def SysJ.init (cap : Nat) (prog : List JAct) (out err : List Nat) (exitCode : Nat) : SysJ :=
+  { cap := cap, outQ := [], errQ := [], outRd := true, errRd := true, prog := prog, reaped := none,
+    cPhase := .writingOut, toOut := out, toErr := err, exitCode := exitCode }
+
+inductive StepJ : SysJ → SysJ → Prop where
+  | cWriteOut (s : SysJ) (k : Nat) : s.cPhase = .writingOut → s.outRd = true → 0 < k → k ≤ s.toOut.length →
+      s.outQ.length + k ≤ s.cap → StepJ s { s with outQ := s.outQ ++ s.toOut.take k, toOut := s.toOut.drop k }
+  | cPipeOut (s : SysJ) : s.cPhase = .writingOut → s.outRd = false → s.toOut ≠ [] →
+      StepJ s { s with cPhase := .signalled }
+  | cDoneOut (s : SysJ) : s.cPhase = .writingOut → s.toOut = [] → StepJ s { s with cPhase := .writingErr }
+  | cWriteErr (s : SysJ) (k : Nat) : s.cPhase = .writingErr → s.errRd = true → 0 < k → k ≤ s.toErr.length →
+      s.errQ.length + k ≤ s.cap → StepJ s { s with errQ := s.errQ ++ s.toErr.take k, toErr := s.toErr.drop k }
+  | cPipeErr (s : SysJ) : s.cPhase = .writingErr → s.errRd = false → s.toErr ≠ [] →
+      StepJ s { s with cPhase := .signalled }
+  | cExit (s : SysJ) : s.cPhase = .writingErr → s.toErr = [] → StepJ s { s with cPhase := .exited }
+  | pWaitExited (s : SysJ) (r : List JAct) : s.prog = .wait :: r → s.cPhase = .exited →
+      StepJ s { s with prog := r, reaped := some s.exitCode }
+  | pWaitSignalled (s : SysJ) (r : List JAct) : s.prog = .wait :: r → s.cPhase = .signalled →
+      StepJ s { s with prog := r, reaped := some 0 }
+  | pCloseOut (s : SysJ) (r : List JAct) : s.prog = .closeOut :: r → StepJ s { s with prog := r, outRd := false }
+  | pCloseErr (s : SysJ) (r : List JAct) : s.prog = .closeErr :: r → StepJ s { s with prog := r, errRd := false }
+  | pCloseIn (s : SysJ) (r : List JAct) : s.prog = .closeIn :: r → StepJ s { s with prog := r }
+
+inductive ReachJ (s0 : SysJ) : SysJ → Prop where
+  | init : ReachJ s0 s0
+  | step {s s' : SysJ} : ReachJ s0 s → StepJ s s' → ReachJ s0 s'
+
+def jRank : JPhase → Nat
+  | .writingOut => 2 | .writingErr => 1 | .exited => 0 | .signalled => 0
+
+def SysJ.measure (s : SysJ) : Nat := s.toOut.length + s.toErr.length + jRank s.cPhase + s.prog.length
+
+/-- executable run with the scheduler that lets the parent act whenever it can (the schedule that
+    exposes a premature close); used by the driver of the correspondence run.  Returns the exit code
+    `join()` stored and whether the child completed. -/
+def SysJ.exec : Nat → SysJ → Option Nat × Bool
+  | 0, s => (s.reaped, s.cPhase == .exited)
+  | f + 1, s =>
+    match s.prog with
+    | .closeOut :: r => SysJ.exec f { s with prog := r, outRd := false }
+    | .closeErr :: r => SysJ.exec f { s with prog := r, errRd := false }
+    | .closeIn :: r => SysJ.exec f { s with prog := r }
+    | .wait :: r =>
+      match s.cPhase with
+      | .exited => SysJ.exec f { s with prog := r, reaped := some s.exitCode }
+      | .signalled => SysJ.exec f { s with prog := r, reaped := some 0 }
+      | .writingOut =>
+        if s.toOut.isEmpty then SysJ.exec f { s with cPhase := .writingErr }
+        else if !s.outRd then SysJ.exec f { s with cPhase := .signalled }
+        else if s.outQ.length < s.cap then
+          SysJ.exec f { s with outQ := s.outQ ++ s.toOut.take 1, toOut := s.toOut.drop 1 }
+        else (s.reaped, false)                    -- blocked for ever: pipe full, nobody reads
+      | .writingErr =>
+        if s.toErr.isEmpty then SysJ.exec f { s with cPhase := .exited }
+        else if !s.errRd then SysJ.exec f { s with cPhase := .signalled }
+        else if s.errQ.length < s.cap then
+          SysJ.exec f { s with errQ := s.errQ ++ s.toErr.take 1, toErr := s.toErr.drop 1 }
+        else (s.reaped, false)
+    | [] => (s.reaped, s.cPhase == .exited)
+
 end Nstd.Args.Kernel
